@@ -294,6 +294,14 @@ func c03Mutants(e *gen.Expr) []c03Mutant {
 		case "bin":
 			lt, rt := x.R.In[0].T, x.R.In[1].T
 			op := x.R.Arg
+			if op == "%" {
+				// the remainder is defined for integers only: a float operand (literal, member, quotient) is a mismatch
+				for i := 0; i < 2; i++ {
+					add(replacePath(e, fmt.Sprintf("%s.%d", pth, i), &gen.Expr{R: gen.Lit("2.5", gen.TFloat, 2.5)}), "operand-mismatch: float literal under %")
+					add(replacePath(e, fmt.Sprintf("%s.%d", pth, i), &gen.Expr{R: gen.Var("F", gen.TFloat)}), "operand-mismatch: float member under %")
+					add(replacePath(e, fmt.Sprintf("%s.%d", pth, i), &gen.Expr{R: gen.Var("F32", gen.TF32)}), "operand-mismatch: float32 member under %")
+				}
+			}
 			switch op {
 			case "in", "not in":
 				add(replacePath(e, pth+".1", lit(gen.TInt)), "operand-mismatch: "+op+" with a non-collection")
